@@ -85,11 +85,78 @@ def seq_part(rep, tier):
             raise vlib.ToolError("replayed %d of %d paths" % (agg["paths"], stats["paths"]))
 
 
+def conc_grid(tier):
+    """every order relation between read size, chunk size, container size and buffer size"""
+    g = []
+
+    def add(name, B, C, mode, writes, reads, abort=False):
+        g.append(dict(name=name, B=B, C=C, mode=mode, writes=writes, reads=reads, abort=abort))
+    for (B, C) in ((2, 3), (3, 2), (3, 3), (1, 4)) if tier == "quick" else ((2, 3), (3, 2), (3, 3), (1, 4), (4, 1), (2, 2), (5, 3)):
+        # byte chunks below / at / above the buffer and the container size; reads likewise, one larger than B + C
+        add("b_%d_%d_small" % (B, C), B, C, "bytes", [1, 2, 1], [2, 2])
+        add("b_%d_%d_bigread" % (B, C), B, C, "bytes", [2, 2, 2, 2], [B + C + 2, 1])
+        add("b_%d_%d_bigwrite" % (B, C), B, C, "bytes", [B + C + 2, 1], [1, 2, B + C])
+        add("b_%d_%d_excess" % (B, C), B, C, "bytes", [2, 1], [2, 2, 1])        # the reader asks for more than is written
+        # whole containers (read mode of File): reader needs several containers at once
+        add("c_%d_%d_span" % (B, C), B, C, "conts", [C, C, C], [1, 2 * C, C - 1])
+        add("c_%d_%d_abort" % (B, C), B, C, "conts", [C, C, C], [2 * C + 1, C], abort=True)
+    add("b_abort_blocked", 2, 2, "bytes", [2, 2, 2], [1], abort=True)
+    return g
+
+
+def fmt_conc(a):
+    if a["op"] == "init":
+        c = a["arg"]
+        return "init %s %d %d %s %d %s %s" % (c["name"], c["B"], c["C"], c["mode"], 1 if c["abort"] else 0,
+                                              ",".join(map(str, c["writes"])) or "-", ",".join(map(str, c["reads"])) or "-")
+    return "%s %s" % (a["op"], a["arg"])
+
+
+def conc_part(rep, tier):
+    from checks import sessions as S
+    from checks import sesscheck as SC
+    grid = conc_grid(tier)
+    mc = vlib.write_mc("MC_StreamConc_" + tier, "StreamConc", "MCConfigs == {%s}" % ",\n".join(S.tla(c) for c in grid))
+    res = vlib.run_tlc(mc, SC._cfg("StreamConc_" + tier, "Spec", ["DeadlockFree", "BytesExact", "PendingBounded"], [], True),
+                       "c15_conc_" + tier, workers=16, timeout=900)
+    rep.add_tlc(res)
+    if not res["ok"]:
+        if res["violated"] and "violated" in res["violated"]:
+            rep.violation("conc:spec:%s" % res["violated"].split()[1], "TLC: %s on StreamConc" % res["violated"],
+                          dict(tlc=S.tlc_violation_trace(res)[:4000]))
+            return
+        vlib.tlc_must_pass(res, "StreamConc")
+    res2 = vlib.run_tlc(mc, SC._cfg("StreamConc_live_" + tier, "FairSpec", [], ["Termination"], False), "c15_conc_live_" + tier,
+                        workers=16, timeout=900)
+    rep.add_tlc(res2)
+    if not res2["ok"]:
+        if res2["violated"]:
+            rep.violation("conc:spec:Termination", "TLC: %s on StreamConc (weak fairness)" % res2["violated"], dict(out=res2["out"]))
+            return
+        vlib.tlc_must_pass(res2, "StreamConc liveness")
+    paths, stats = vlib.path_cover(res["lines"])
+    res["lines"] = None
+    exes = vlib.build("sched", ["drv_uf_conc"])
+    agg = vlib.replay_paths(exes["drv_uf_conc"], paths, fmt_conc, "c15_conc", timeout=400)
+    rep.cov["evaluations"] += agg["steps"]
+    rep.cov["traces_validated_against_impl"] += agg["paths"]
+    rep.cov.setdefault("m1", []).append(dict(spec="StreamConc", configs=len(grid), **stats, replayed_paths=agg["paths"],
+                                            replayed_steps=agg["steps"]))
+    if agg["crashed"]:
+        rep.violation("conc:crash", "driver crashed: %s" % str(agg["crashed"][0])[:400], agg["crashed"][0])
+    elif agg["mismatches"]:
+        rep.violation("conc:mismatch", "real UncompressedFile under the scheduler leaves the StreamConc graph: %s"
+                      % str(agg["first"])[:500], agg["first"])
+    elif agg["paths"] != stats["paths"]:
+        raise vlib.ToolError("replayed %d of %d paths" % (agg["paths"], stats["paths"]))
+
+
 def run(rep, tier, seed):
     rep.cov["rule"] = ("every edge (state, operation) of the TLC state graph of UncompressedFileSeq is executed on the "
                        "real UncompressedFile and the full projected state incl. the bytes returned is compared; "
                        "distinct_nontrivial = distinct edges")
     seq_part(rep, tier)
+    conc_part(rep, tier)
     rep.cov["distinct_nontrivial"] = sum(m["edges"] for m in rep.cov.get("m1", []))
     rep.assumptions += ["write(container) is only issued while no container is open at the put position "
                         "(Protocol = TRUE); the unrestricted case is known finding F14",
